@@ -9,7 +9,12 @@ MANIFEST_ENTRY = dict(
     note=WALLET_NOTE)
 
 PARAMS = dict(quick_cfgs=["MC_C04_quick.cfg", "MC_C04_self.cfg", "MC_C05_acct.cfg"], thorough_cfgs=["MC_C04.cfg", "MC_C04_b.cfg", "MC_C03_acct.cfg"], quick_n=140, thorough_n=500,
-              setup={"nfund": 1, "pad": 3, "fault_refresh": True, "fault_scans": 3}, assumptions=WALLET_ASSUME, extra_behaviours=[])
+              setup={"nfund": 1, "pad": 3, "fault_refresh": True, "fault_scans": 3}, assumptions=WALLET_ASSUME, extra_behaviours=[
+    # directed (fixes/C04-5): the block with the wallet's coinbase candidate is mined, and BEFORE the wallet looks at the
+    # chain the node asks again under that candidate's key for the next height; the refresh must record the coinbase
+    # with the height - and the maturity - of the block it is really in
+    [{"ev": "mine", "to": "w1", "txs": []}, {"ev": "build_coinbase", "w": "w1", "key": "a0c1", "h": 6, "fees": 0},
+     {"ev": "refresh", "w": "w1"}, {"ev": "mine", "to": "", "txs": []}, {"ev": "refresh", "w": "w1"}]])
 
 
 def run(tier, replay_path, t0):
